@@ -17,7 +17,7 @@ import (
 func init() {
 	Register(&Spec{
 		ID:           "C13",
-		Explanation:  "Decides four structural clauses of the packed codec in internal/packed: (R1) in the one-shot decoder, the count returned by a copy from the remaining input into a destination sized from an input byte reaches a comparison (a short literal run is detected, as io.ReadFull does in the streaming sibling); (R2) the number of words passed to allocWords is the constant 1 or a single input byte, and Reader.zeroes/literal are set only from a single byte or decremented: output grows by at most 255 words per count byte; (R3) Pack, Unpack and Reader.ReadWord all dispatch on exactly the tags 0x00 and 0xff, and each place where a count byte or a tagged byte is missing yields (or latches) io.ErrUnexpectedEOF; (R4) every index into the input in Unpack and ReadWord is bounded by an interval analysis of the index against a dominating length test. Does NOT decide unpack(pack(x)) = x, run-length limits as values, or equivalence of the two decoders.",
+		Explanation:  "Decides four structural clauses of the packed codec in internal/packed: (R1) in the one-shot decoder, the count returned by a copy from the remaining input into a destination sized from an input byte reaches a comparison (a short literal run is detected, as io.ReadFull does in the streaming sibling); (R2) the number of words passed to allocWords is the constant 1 or a single input byte, and Reader.zeroes/literal are set only from a single byte or decremented: output grows by at most 255 words per count byte; (R3) Pack, Unpack and Reader.ReadWord all dispatch on exactly the tags 0x00 and 0xff, and each place where a count byte or a tagged byte is missing yields (or latches) io.ErrUnexpectedEOF; (R4) every index into the input in Unpack and ReadWord is bounded by an interval analysis of the index against a dominating length test; (R1) also requires the copy count to be compared with a byte extent of the destination; (R3e) in the streaming decoder the error of every byte read after the tag byte is latched or returned only where it is known not to be io.EOF; (R5) every integer converted to a count byte in Pack has an upper bound of at most 255 (bounds through min, loop counters and division). Does NOT decide unpack(pack(x)) = x, run-length limits as values, or equivalence of the two decoders.",
 		ExtraConfigs: true,
 		Run:          runC13,
 	})
@@ -29,6 +29,7 @@ func runC13(ctx *Ctx) {
 	rulePackedSiblings(ctx, "C13-R3")
 	ruleIndexBounds(ctx, "C13-R4", []string{"internal/packed.Unpack", "internal/packed.(*Reader).ReadWord"})
 	ruleNarrowingFits(ctx, "C13-R5", []string{"internal/packed.Pack"})
+	ruleCountByteEOF(ctx, "C13-R3e")
 	r := ctx.Rep
 	r.Floor("C13-R5", 2)
 	r.Floor("C13-R1", 1)
@@ -64,13 +65,25 @@ func ruleShortCopy(ctx *Ctx, rule string) {
 			n++
 			key := fmt.Sprintf("internal/packed.Unpack | copy #%d of a literal run is checked for shortness", n)
 			compared := false
+			unit := ""
 			refs := call.Referrers()
 			if refs != nil {
 				for _, ref := range *refs {
 					if bo, ok := ref.(*ssa.BinOp); ok {
 						switch bo.Op {
 						case token.LSS, token.LEQ, token.GTR, token.GEQ, token.EQL, token.NEQ:
-							compared = true
+							// copy counts bytes: the other operand must be a byte extent of the
+							// grown destination (len(dst)-start, len(dst[start:])), not the
+							// run's word count
+							other := bo.Y
+							if other == ssa.Value(call) {
+								other = bo.X
+							}
+							if strings.Contains(ssaq.RenderValue(f, other), "len(allocWords(") {
+								compared = true
+							} else {
+								unit = ssaq.RenderValue(f, other)
+							}
 						}
 					}
 				}
@@ -79,7 +92,11 @@ func ruleShortCopy(ctx *Ctx, rule string) {
 			if compared {
 				r.Ok(rule, key, pos, "the number of bytes copied is compared with the size of the run")
 			} else {
-				r.Violation(rule, key, pos, "the literal run is copied from whatever input remains and the count is never compared with the announced run length: a truncated run is silently completed with zero bytes and accepted")
+				why := "the count is never compared with the announced run length"
+				if unit != "" {
+					why = "the byte count is compared with " + unit + ", which is not the byte length of the run's destination (a word count?)"
+				}
+				r.Violation(rule, key, pos, "the literal run is copied from whatever input remains and "+why+": a truncated run is silently completed with zero bytes and accepted")
 			}
 		}
 	}
